@@ -3,7 +3,7 @@
 //! Every enumeration below is guarded by an exhaustive `match` without wildcard plus a contiguity check
 //! on the discriminants, so a variant added to / removed from the Rust enums breaks this build or this run.
 use emmylua_parser::{
-    BinaryOperator, LexerConfig, LuaFeatures, LuaKind, LuaLanguageLevel, LuaOpKind, LuaTokenKind,
+    BinaryOperator, LexerConfig, LuaFeatures, LuaKind, LuaLanguageLevel, LuaLexer, LuaOpKind, LuaTokenKind, Reader,
     UNARY_PRIORITY, UnaryOperator,
 };
 
@@ -194,5 +194,38 @@ pub fn features_table() -> String {
     }
     s.push_str("\ndef support (l : Level) (f : Feature) : Bool := (supported l).contains f\n");
     s.push_str("\nend Gen.Features\n");
+    s
+}
+
+/// words that are a keyword at some level / in some dialect but may be an identifier elsewhere, plus one
+/// ordinary identifier; the python generator adds every string literal matched in `name_to_kind`
+pub const SOFT_WORDS: &[&str] = &["goto", "global", "const", "close", "continue", "foo"];
+
+/// Lean source of Gen/FeaturesKeywords.lean: the token kind the real lexer gives to every word at every
+/// language level (`LuaLexer::tokenize` on the word alone = `name_to_kind`).
+pub fn keyword_table(words: &[String]) -> String {
+    let levels = all_levels();
+    let mut s = String::new();
+    s.push_str("import EmmyVerif.Gen.ClimbTable\nimport EmmyVerif.Gen.FeaturesTable\n");
+    s.push_str("/-! GENERATED by `vh-syntax gen-tables` (checklib/gen/syntax_tables.py): the token kind `LuaLexer` gives to\n");
+    s.push_str("each word (every string matched in `name_to_kind`, read from the source, plus the soft words) at every\n");
+    s.push_str("`LuaLanguageLevel`, by executing the real lexer. Do not edit. -/\nnamespace Gen.Keywords\nopen Gen.Climb (Tok)\nopen Gen.Features (Level)\n\n");
+    s.push_str("inductive Word\n ");
+    for w in words {
+        s.push_str(&format!(" | w_{w}"));
+    }
+    s.push_str("\n  deriving DecidableEq, Repr, Inhabited\n\n");
+    s.push_str(&format!("def Word.all : List Word := [{}]\n\n", words.iter().map(|w| format!(".w_{w}")).collect::<Vec<_>>().join(", ")));
+    s.push_str("/-- rows whose kind is not `TkName` are listed -/\ndef kindOf : Level → Word → Tok\n");
+    for l in &levels {
+        for w in words {
+            let toks = LuaLexer::new(Reader::new(w), LexerConfig::new(*l), None).tokenize();
+            assert_eq!(toks.len(), 1, "word {w} is not one token");
+            if toks[0].kind != LuaTokenKind::TkName {
+                s.push_str(&format!("  | .{:?}, .w_{w} => .{:?}\n", l, toks[0].kind));
+            }
+        }
+    }
+    s.push_str("  | _, _ => .TkName\n\nend Gen.Keywords\n");
     s
 }
